@@ -31,7 +31,7 @@ RULES["C12"] = (
     "keeps a ray only in general position: every triangle is either crossed with all barycentrics >= 1e-3 and |n.d| >= 1e-2, "
     "or missed with a barycentric <= -1e-3 (exactly parallel triangles: ray >= 1e-3 altitude from their edges), <= 20 hits; "
     "embree (float32) is only asked about rays whose clearance from every edge exceeds 32*2^-24*(|origin-corner|+diag), and "
-    "its all-hits loop only about rays whose consecutive hits are >= 1e-3*diag apart. Checked per engine: set of (ray,triangle) "
+    "its all-hits loop only about rays whose consecutive hits are >= 1e-3*diag apart. The embree intersector is built both ways its constructor documents (scale_to_box=True default / False). Checked per engine: set of (ray,triangle) "
     "hits, locations on the ray ahead of the origin and on the reported triangle, first hit = argmin t, any = non-empty, "
     "single-hit variants, engines agree. contains_points (both engines) vs generalized winding number for points >= 1e-3*diag "
     "from the surface of watertight meshes. nearest.on_surface / vertex / signed_distance vs the minimum over all triangles "
@@ -56,7 +56,7 @@ COSMIN = 1e-2  # fixed incidence margin
 MAX_HITS = 20  # documented max_hits of the embree engine
 DIST_RTOL = 1e-8  # = tol.merge, relative: documented tie window of proximity.closest_point (see ASSUMPTIONS)
 F32K = 32.0 * 2.0**-24
-F32_RESOLVE = 8.0 * 100.0 * 2.0**-23  # a few float32 ulps of a coordinate of the diag=100 embree scene
+F32_RESOLVE = 8.0 * 2.0**-23  # a few float32 ulps of a coordinate of the embree scene, relative to its diagonal (float32 is scale free: the same with and without scale_to_box)
 
 QUARTER = []
 for _p in ((0, 1, 2), (1, 2, 0), (2, 0, 1), (0, 2, 1), (2, 1, 0), (1, 0, 2)):
@@ -382,11 +382,11 @@ def _check_pairs(sig, name, got, want, info, D, extra_info=""):
     raise Violation(sig + "|" + _why_missed(name, info, D, r, tri), f"{len(missed)} crossed triangle(s) not reported, e.g. (ray,tri)={missed[:6]}; ray {r}: o={info[r]['o']} d={info[r]['d']} oracle t={info[r]['t'][tri]!r} barycentric margin={info[r]['bmin'][tri]!r} n.d={info[r]['cos'][tri]!r} {extra_info}")
 
 
-def check_engine(name, eng, g, O, D, info, dirmode, multi_ok):
+def check_engine(name, eng, g, O, D, info, dirmode, multi_ok, opt=""):
     """all ray queries of one engine against the oracle.  O, D: kept rays; info: oracle records; multi_ok: rays that
     are put to the all-hits queries."""
     n = len(O)
-    base = f"C12.ray|native|dir={dirmode}" if name == "native" else "C12.ray|embree"
+    base = f"C12.ray|native|dir={dirmode}" if name == "native" else "C12.ray|embree" + opt
     for r in range(n):
         info[r]["o"] = O[r].tolist()
         info[r]["d"] = D[r].tolist()
@@ -438,7 +438,7 @@ def check_engine(name, eng, g, O, D, info, dirmode, multi_ok):
         extra = ""
         if name == "embree":
             # the loop re-launches each ray from its last hit moved by clip(1e-4 * (100/diag), 1e-8) along the ray
-            step = max(1e-4 * 100.0 / g.mesh.scale, 1e-8)
+            step = max(1e-4 * g.mesh.scale, 1e-8)  # documented: a factor of geometry.scale, whatever scale_to_box is
             gaps = [np.diff([h[0] for h in im[r]["hits"]]) * np.linalg.norm(Dm[r]) for r in range(len(idx))]
             mingap = min([float(x.min()) for x in gaps if len(x)] + [np.inf])
             extra = f"[embree re-launch offset {step:.3g}, smallest gap between consecutive hits {mingap:.3g}, diag {g.diag:.3g}]"
@@ -497,7 +497,7 @@ def _check_locations(sig, loc, ir, it, O, D, dh, info, g, loc_rel):
 def _embree_offset_class(g, O, D, info, got):
     """root-cause class of a multi-hit mismatch of the embree loop: is a lost hit closer to its predecessor than the
     re-launch offset, or is the offset below the float32 resolution of the scaled scene?"""
-    step = max(1e-4 * 100.0 / g.mesh.scale, 1e-8)
+    step = max(1e-4 * g.mesh.scale, 1e-8)  # documented: a factor of geometry.scale, whatever scale_to_box is
     gs = set(got)
     for r in range(len(O)):
         ts = [h[0] * float(np.linalg.norm(D[r])) for h in info[r]["hits"]]
@@ -508,7 +508,7 @@ def _embree_offset_class(g, O, D, info, got):
     # The scene is scaled to diag=100 and stored as float32 (ulp(100) = 100*2^-23); the re-launch point is
     # step*(100/diag)*|n.d| scene units behind the face.
     for r, tri in sorted(p for p in gs if got.count(p) > 1):
-        if 0 <= tri < len(info[r]["cos"]) and step * (100.0 / g.diag) * abs(float(info[r]["cos"][tri])) < F32_RESOLVE:
+        if 0 <= tri < len(info[r]["cos"]) and step / g.diag * abs(float(info[r]["cos"][tri])) < F32_RESOLVE:
             return "|relaunch_offset_below_float32"
     return ""
 
@@ -584,13 +584,17 @@ def b_ray(case, ctx):
                 ctx.note(cls="embree_ray:" + ("asked" if ok[i] else "skipped_float32_clearance"))
             if ok.any():
                 idx = np.nonzero(ok)[0]
-                eng = ray_pyembree.RayMeshIntersector(g.mesh)
+                # both documented ways of constructing it: scaled to a ~100 box (default) or in mesh units; float32 is a
+                # relative format, so the eligibility rule (relative to the scene size) is the same for both
+                box = bool(case.get("scale_to_box", True))
+                ctx.note(cls="embree:scale_to_box=" + str(box))
+                eng = ray_pyembree.RayMeshIntersector(g.mesh) if box else ray_pyembree.RayMeshIntersector(g.mesh, scale_to_box=False)
                 # the all-hits loop re-launches the ray behind each hit: consecutive hits must be the fixed margin apart
                 multi_ok = np.array([info[i]["gap"] >= MARGIN * g.diag for i in idx])
                 for i in range(len(idx)):
                     if not multi_ok[i]:
                         ctx.note(cls="embree_ray:all_hits_skipped_gap_below_margin")
-                f = check_engine("embree", eng, g, O[idx], D[idx], [info[i] for i in idx], dirmode, multi_ok)
+                f = check_engine("embree", eng, g, O[idx], D[idx], [info[i] for i in idx], dirmode, multi_ok, opt="" if box else "|scale_to_box=False")
                 if "native" in first:
                     check(np.array_equal(np.asarray(f, dtype=np.int64), np.asarray(first["native"], dtype=np.int64)[idx]), "C12.ray|engines_disagree|intersects_first", "native and embree first hits differ")
 
@@ -666,14 +670,14 @@ DEFAULT_DIRECTION = np.array([0.4395064455, 0.617598629942, 0.652231566745])  # 
 def embree_contains_cause(g, hits_f, hits_b, cos_f, cos_b):
     """root-cause class of a wrong embree parity for one point: hits (t, tri) along +-DEFAULT_DIRECTION (unit, so t is a
     length) and the incidence cosines per triangle.  mesh.ray is the embree engine whenever embreex is importable."""
-    step = max(1e-4 * 100.0 / g.mesh.scale, 1e-8)
+    step = max(1e-4 * g.mesh.scale, 1e-8)  # documented: a factor of geometry.scale, whatever scale_to_box is
     gaps = []
     for hh in (hits_f, hits_b):
         gaps += list(np.diff([x[0] for x in hh]))
     coss = [abs(float(cos_f[x[1]])) for x in hits_f] + [abs(float(cos_b[x[1]])) for x in hits_b]
     if gaps and min(gaps) <= 1.5 * step:
         return "|hit_within_relaunch_offset", step
-    if coss and step * (100.0 / g.diag) * min(coss) < F32_RESOLVE:
+    if coss and step / g.diag * min(coss) < F32_RESOLVE:
         return "|relaunch_offset_below_float32", step
     return "", step
 
@@ -738,7 +742,9 @@ def b_contains(case, ctx):
         else:
             if not HAVE_EMBREE:
                 return
-            eng = ray_pyembree.RayMeshIntersector(g.mesh)
+            box = bool(case.get("scale_to_box", True))
+            ctx.note(cls="contains_embree:scale_to_box=" + str(box))
+            eng = ray_pyembree.RayMeshIntersector(g.mesh) if box else ray_pyembree.RayMeshIntersector(g.mesh, scale_to_box=False)
             ok = clr >= F32K * (np.abs(P - g.lo_all).max(axis=1) + g.diag)
             sel = np.nonzero(ok | ~inbox)[0]
             if len(sel) == 0:
@@ -759,6 +765,8 @@ def b_contains(case, ctx):
                 extra = f" [embree re-launch offset {step:.3g}, diag {g.diag:.3g}]"
             if g.deg.any():
                 cause += "|mesh_with_degenerate_faces"
+            if engine == "embree" and not case.get("scale_to_box", True):
+                cause = "|scale_to_box=False" + cause
             sig = f"C12.contains|{engine}{cause}|{cls}|rays={'gp' if gp[i] else 'nongp'}"
             raise Violation(sig, f"point {i} ({labels[i]}) {P[i].tolist()}: contains={bool(got[j])}, winding number says inside={bool(inside[i])}; distance to surface {g.dist(P[i]):.3g}; oracle hits along +dir {len(hits_f)}, -dir {len(hits_b)}{extra}")
 
@@ -916,6 +924,8 @@ def ray_case(draw, engines=("native", "embree", "both")):
     case = draw(base_case())
     case["dir"] = draw(st.sampled_from(["unit", "unit", "raw"]))
     case["engine"] = draw(st.sampled_from(list(engines)))
+    if case["engine"] != "native" and draw(st.booleans()):
+        case["scale_to_box"] = False
     share = draw(st.sampled_from([None, "target", "collinear", "mixed", "mixed"]))
     if share:
         case["share"] = share
@@ -926,6 +936,8 @@ def ray_case(draw, engines=("native", "embree", "both")):
 def contains_case(draw):
     case = draw(base_case(allow_drop=False))
     case["engine"] = draw(st.sampled_from(["native", "embree"]))
+    if case["engine"] == "embree" and draw(st.booleans()):
+        case["scale_to_box"] = False
     if draw(st.booleans()):
         case["line"] = True
     return case
@@ -990,6 +1002,10 @@ REQUIRED_CLASSES["C12"] = [
     "batch:hit_point_shared_by_two_rays",
     "cpoint:on_test_line",
     "ray_offset:vfar",
+    "embree:scale_to_box=False",
+    "embree:scale_to_box=True",
+    "contains_embree:scale_to_box=False",
+    "contains_embree:scale_to_box=True",
     "ray_mesh:with_unreferenced_vertices",
     "ray_faces:with_degenerate",
     "contains_faces:with_degenerate",
